@@ -6,8 +6,8 @@ CONSTANTS
  Vars = {"opt"}
  Ns = {2, 3, 4}
  MsgVecs <- MV23b
- CCoins <- AllZq
- SCoins <- C3a
+ CCoins <- C6
+ SCoins <- C2d
  Tamper = FALSE
  PowM <- TabPowM
 INVARIANTS Correct HonestAbort Refusal OneOnly Curious CuriousPairs
